@@ -48,4 +48,40 @@ Theorem C09_search_phase1_independent_of_newline_and_settings_strings :
   snd (olf_model rs W false lines l) = snd (olf_model rs' W false lines l').
 Proof. exact olf_phase1_events_read. Qed.
 
+(* END TO END, on the composed model Model/Format.v: format_model (the stage models folded over the stage list GENERATED from make_formatter,
+   from the input bytes to the output bytes; tied to the implementation byte for byte and stage by stage by unit e2e). The glue in front of
+   every decided token is a number of configured newlines followed by blanks/tabs; with string re-indentation off the crlf output is
+   the lf output with each terminator substituted. *)
+From PasfmtVerif Require Import Model.Format Proofs.FormatProofs Proofs.FormatTotalProofs Proofs.FormatWrapProofs Proofs.FormatIgnoredProofs Proofs.FormatVerbatimProofs Proofs.FormatLayoutProofs Proofs.FormatRescanProofs Proofs.FormatContentProofs Proofs.FormatMLProofs Proofs.FormatContentMLProofs Proofs.FormatEofProofs.
+Theorem C09_format_line_breaks :
+  forall (alnum : bytes -> bool) (cfg : fconfig) (s out : bytes),
+  format_model alnum cfg s = inl out ->
+  exists (segs : list seg) (parts : list (bytes * bytes)),
+    lex_segments s = Some segs /\
+    length parts = length segs /\
+    out = flatten_parts parts /\
+    (forall (i : nat) (sg : seg),
+     nth_error segs i = Some sg ->
+     (nth_error (fm_marks segs) i = Some true ->
+      exists nl : list N,
+        nth_error parts i = Some (nl ++ seg_ws sg, seg_content sg) /\
+        (nl = [] \/ nl = rs_newline (cfg_rs cfg))) /\
+     (nth_error (fm_marks segs) i = Some false ->
+      exists (k : N) (blanks : list N) (body : bytes),
+        nth_error parts i = Some (nrepeat k (rs_newline (cfg_rs cfg)) ++ blanks, body) /\
+        sp_tabs blanks)).
+Proof. exact format_line_breaks. Qed.
+
+Theorem C09_format_crlf_is_subst :
+  forall (alnum : bytes -> bool) (cfg : fconfig) (s : bytes),
+  c_fms cfg = false ->
+  (exists pieces : list ReconstructProofs.piece,
+     format_model alnum (with_crlf cfg true) s =
+     inl (ReconstructProofs.render [13; 10] pieces) /\
+     format_model alnum (with_crlf cfg false) s = inl (ReconstructProofs.render [10] pieces)) \/
+  (exists e : ferr,
+     format_model alnum (with_crlf cfg true) s = inr e /\
+     format_model alnum (with_crlf cfg false) s = inr e).
+Proof. exact format_crlf_is_subst. Qed.
+
 
